@@ -14,6 +14,7 @@ import GherkinVerif.Spec.TableFacts
 import GherkinVerif.Gen.Dialects
 import GherkinVerif.Gen.DialectsMaster
 import GherkinVerif.Gen.ParserTable
+import GherkinVerif.KDecide
 namespace GV
 open Spec
 
@@ -22,7 +23,7 @@ open Spec
     title keyword contains `:`; dialect names are distinct; the only step keyword listed more than
     once in a dialect is `"* "`, and `"* "` is never listed exactly once; no step keyword clashes
     with a title keyword + `:`; no title keyword + `:` of one line kind prefixes one of another. -/
-theorem C05_dialect_facts : Spec.keywordFacts Gen.dialects = true := by decide +kernel
+theorem C05_dialect_facts : Spec.keywordFacts Gen.dialects = true := by kdecide
 
 /-- Generic title-line lemma: in a keyword list none of whose members contains `:`, the line
     `ws ++ k ++ ":" ++ rest` (any whitespace indentation `ws`, any `rest`, possibly ending in
@@ -250,7 +251,7 @@ theorem C05_language_lookup_table (d : Dialect) (hd : d ∈ Gen.dialects) :
 /-- The header is honoured only at the top of the document: in the regenerated parser table
     `match_Language` is tested in state 0 only. -/
 theorem C05_language_only_at_start : Spec.languageOnlyAtStart Gen.parserTable = true := by
-  decide +kernel
+  kdecide
 
 /-- A matched title token (in particular the Feature line, from which the AST takes `language`)
     carries the dialect in force, the matcher is unchanged, and its keyword is one listed for
@@ -262,7 +263,7 @@ theorem C05_dialect_reported (D : List Dialect) (ty : Kind) (hty : ty.isTitle = 
   Lemmas.matchLine_title_dialect D ty hty μ μ' t t' l h
 
 /-- The language table shipped with the package is identical to the repository's master table. -/
-theorem C05_tables_identical : Gen.dialects = GenMaster.dialects := by decide +kernel
+theorem C05_tables_identical : Gen.dialects = GenMaster.dialects := by kdecide
 
 /-! ### non-vacuity -/
 
@@ -273,7 +274,7 @@ example :
       let o := matchLine Gen.dialects .FeatureLine μ ⟨some l, 1, none, none, none, none, none, 0, [], []⟩ l
       (o.tok.keyword, o.tok.text, o.tok.col, o.tok.dialect)) =
     some (some (lit "Fonctionnalité"), some (lit "Un titre"), some 3, lit "fr") := by
-  decide +kernel
+  kdecide
 
 /-- The same line under English is plain text: no title kind, no step. -/
 example :
@@ -283,7 +284,7 @@ example :
       [Kind.FeatureLine, .RuleLine, .BackgroundLine, .ScenarioLine, .ExamplesLine, .StepLine].map fun k =>
         (matchLine Gen.dialects k μ t l).tok.mtype) =
     some [none, none, none, none, none, none] := by
-  decide +kernel
+  kdecide
 
 /-- A shadowed keyword: Slovak lists `"A "` before `"A tiež "`, so the line is reported with
     `"A "`; `"* "` has type `Unknown`, `"Keď "` type `Action`. -/
@@ -295,7 +296,7 @@ example :
     some [(some (lit "A "), some (lit "tiež niečo"), some .Conjunction),
           (some (lit "* "), some (lit "niečo"), some .Unknown),
           (some (lit "Keď "), some (lit "niečo"), some .Action)] := by
-  decide +kernel
+  kdecide
 
 /-- Informational (current table): ten step keywords are shadowed by an earlier listed prefix
     (`Spec.prefixClashes`), in the dialects en-old, ht and sk; by `C05_step_first_prefix` lines
@@ -303,7 +304,7 @@ example :
 example : (Gen.dialects.flatMap fun d => (prefixClashes d).map fun c => (d.name, c)).length = 10 ∧
     (Gen.dialects.filter fun d => !(prefixClashes d).isEmpty).map (·.name) =
       [lit "en-old", lit "ht", lit "sk"] := by
-  decide +kernel
+  kdecide
 
 /-- A header switches the dialect; an unknown name is an error at the header. -/
 example : languageRe (lit " #language :  pt-BR \n") = some (lit "pt-BR") := by decide
@@ -314,6 +315,6 @@ example :
       match (matchLine Gen.dialects .Language μ ⟨some l, 7, none, none, none, none, none, 0, [], []⟩ l).res with
       | .raised e => some (e.kind, e.loc) | _ => none) =
     some (some (.noSuchLanguage, ⟨7, some 3⟩)) := by
-  decide +kernel
+  kdecide
 
 end GV
